@@ -56,9 +56,16 @@ pub fn run(case: &Value) -> Value {
     std::fs::write(&cf, serde_json::to_string(case).unwrap()).unwrap();
     let mut dumps = vec![];
     let mut ok_vectors: Vec<Vec<bool>> = vec![];
-    for tag in ["p1", "second_process_with_a_longer_path"] {
+    for (tag, src_mtime) in [("p1", "old"), ("second_process_with_a_longer_path", "new")] {
         let root = base.join(tag);
-        let out = std::process::Command::new(std::env::current_exe().unwrap()).arg("c20_child").arg(&cf).arg(&root).env("VERIF_NO_SNAPSHOT", "1").output().unwrap();
+        let out = std::process::Command::new(std::env::current_exe().unwrap())
+            .arg("c20_child")
+            .arg(&cf)
+            .arg(&root)
+            .env("VERIF_NO_SNAPSHOT", "1")
+            .env("VERIF_SRC_MTIME", src_mtime)
+            .output()
+            .unwrap();
         let oks: Vec<bool> = serde_json::from_str(String::from_utf8_lossy(&out.stdout).trim()).unwrap_or_default();
         let mut d = vec![];
         raw_dump(&root.join("layers"), Path::new(""), &mut d);
